@@ -580,6 +580,6 @@ func TestSequences(t *testing.T) {
 			s.messages()
 		}
 		evid.NonTrivial("seq|" + s.theme + "|" + strings.Join(s.trace, ";"))
-		evid.Sample("sequence", "seq|" + s.theme + "|" + strings.Join(s.trace, ";"))
+		evid.Sample("sequence", "seq|"+s.theme+"|"+strings.Join(s.trace, ";"))
 	})
 }
